@@ -75,10 +75,11 @@ def jobs_for(tier, only, kind):
             sel = [(c, W.VSS_ADDR_STATIC) for c in sorted(set(counts[1::2] + counts[-1:]))] + [(counts[-1], W.VSS_ADDR_INTEROP)]
         else:
             # decoding harnesses encode + decode and need 5-12 GB each: quick keeps the two that cross 511/512 bytes
-            sel = {0x0B: [(513, W.VSS_ADDR_STATIC)], 0x82: [(256, W.VSS_ADDR_STATIC)]}.get(code, [])
+            sel = {0x0B: [(513, W.VSS_ADDR_STATIC)], 0x82: [(256, W.VSS_ADDR_STATIC)], 0x8A: [(64, W.VSS_ADDR_STATIC)],
+                   0x80: [(513, W.VSS_ADDR_INTEROP)]}.get(code, [])
         for cnt, mode in sel:
             pl = 0 if mode == W.VSS_ADDR_STATIC else 5
-            src, M = gen_e(code, mode, pl, cnt)
+            src, M = (gen_e if kind == 'c07' else V.c08_big)(code, mode, pl, cnt)
             jobs.append(Job('%s.%s.%s.E.p%d.n%d' % (kind, name, 'interop' if mode == 0 else 'static', pl, cnt), src, SRC,
                             unwind=max(70, M + 8), unwindset=WALKER, timeout=1500, object_bits=12, backend='kissat',
                             mem_gb=(12 if kind == 'c07' else 16), loop_policy=codec_loop_policy(name, cnt + 2),
